@@ -74,6 +74,14 @@ class EmitterInterp(object):
         self.calls = []
         self.ncalls = 0
         self.senders = [_Sender(i) for i in range(3)]
+
+        class _CallableSender(object):
+            def __call__(self, *a, **k):
+                raise AssertionError('a sender is never called')
+
+            def __repr__(self):
+                return 'S3(callable)'
+        self.callable_sender = _CallableSender()
         self.owners = [_Owner('0', self._log), _Owner('1', self._log)]
         log = self._log
 
@@ -120,6 +128,8 @@ class EmitterInterp(object):
     def _sender(self, k):
         if k is None:
             return None
+        if k == 3:
+            return self.callable_sender     # a sender that happens to be callable
         if k == 2:
             # a sender compared by value: a fresh, equal object on every use
             return tuple(['sender', 2 + len(self.senders) - 3])
@@ -383,14 +393,14 @@ class EmitterMachine(_Base):
         self.start({'salt': salt})      # (only varies the ambient process state of the case)
 
     @rule(cb=st.integers(0, 7), event=st.sampled_from([None, 'open', 'open', 'open', 'n_b', 'c']),
-          sender=st.sampled_from([None, None, 0, 0, 1, 2]), last=st.booleans(),
+          sender=st.sampled_from([None, None, 0, 0, 1, 2, 3]), last=st.booleans(),
           style=st.sampled_from(['direct', 'decorator']))
     def connect(self, cb, event, sender, last, style):
         self.do(dict(op='connect', cb=cb, event=event, sender=sender, last=last, style=style))
 
     @rule(what=st.sampled_from(['cb', 'sender', 'owner']), i=st.integers(0, 5))
     def unconnect(self, what, i):
-        n = {'cb': 8, 'sender': 3, 'owner': 2}[what]
+        n = {'cb': 8, 'sender': 4, 'owner': 2}[what]
         self.do(dict(op='unconnect', what=what, i=i % n))
 
     @rule()
@@ -413,7 +423,7 @@ class EmitterMachine(_Base):
         self.do(dict(op='leave'))
 
     @rule(event=st.sampled_from(['open', 'open', 'open', 'n_b', 'c']),
-          sender=st.sampled_from([None, 0, 0, 0, 1, 2]),
+          sender=st.sampled_from([None, 0, 0, 0, 1, 2, 3]),
           args=st.lists(_small, max_size=2), kwargs=_kwargs, single=st.booleans())
     def emit(self, event, sender, args, kwargs, single):
         self.do(dict(op='emit', event=event, sender=sender, args=args, kwargs=kwargs,
